@@ -509,7 +509,6 @@ class Check:
                 "trusted_base": trusted or ["pysym evaluator (validated against the compiled kernels each run)", "z3"],
                 "harness_errors": errors[:5],
                 "notes": self.notes[:10],
-                "states": max(1, len(queries)), "transitions": max(1, len(queries)),
                 "traces_validated_against_impl": self.validation["cases"],
             },
             "assumptions": self.assumptions,
